@@ -377,3 +377,41 @@ func verifC16Keys() {
 	vAssert(vBytesEq(held[0].(net.IP), heldCopy[0]) && vBytesEq(held[1].(net.IP), heldCopy[1]), "a result handed out earlier is not modified by a later refresh")
 	vReach("keys")
 }
+
+// verifC16ZeroTTLConcurrent: two goroutines look the same name up at the same
+// time (cold entry, or an entry that expired before both started) while the
+// upstream answers with TTL 0 - not cacheable.  Such an answer is never handed
+// to the lookup that waited for the entry's lock: each lookup asks upstream
+// itself.  Every schedule with at most two pre-emptions at synchronisation points.
+func verifC16ZeroTTLConcurrent() {
+	vSchedForks(true)
+	vPreemptions(2)
+	clock := int64(5_000_000)
+	timeNow = func() time.Time { return time.Unix(clock, 0) }
+	queries := 0
+	dns.VerifHook_DoH = func(ctx context.Context, msg *dns.Message, URL string) (*dns.Message, error) {
+		queries++
+		n := queries
+		vStall(20) // the upstream takes its time: the other lookup reaches the entry's lock meanwhile
+		return &dns.Message{QR: 1, Answer: []dns.RR{{Name: "n1", Type: 1, Class: 1, TTL: 0, Data: net.IP{10, 0, 0, byte(n)}}}}, nil
+	}
+	r := &Resolver{cache: newResolverCache()}
+	if vBool() {
+		// an older entry that has expired
+		_, _ = r.resolveOne(context.Background(), "n1", "A")
+		clock += 1000
+		queries = 0
+	}
+	done := make(chan byte, 2)
+	for i := 0; i < 2; i++ {
+		go func() {
+			res, err := r.resolveOne(context.Background(), "n1", "A")
+			vAssert(err == nil && len(res) == 1, "lookup succeeds")
+			done <- res[0].(net.IP)[3]
+		}()
+	}
+	a, b := <-done, <-done
+	vAssert(queries == 2, "an answer that is not cacheable is never shared: each concurrent lookup asks upstream")
+	vAssert(a != b, "each lookup returns the answer it fetched itself")
+	vReach("zero-ttl")
+}
